@@ -19,8 +19,11 @@ SetToSeqC == CHOOSE s \in [1..Cardinality(Clients) -> Clients] : \A i, j \in 1..
 ClientNonce(c) == <<1, CHOOSE i \in 1..Cardinality(Clients) : c = SetToSeqC[i]>>
 GuessNonce == <<9, 9>>          \* what an off-path forger can come up with: never a nonce drawn by an endpoint
 
-Cfg == [maxActive |-> MaxActive, maxTotal |-> MaxTotal, herr |-> Herr, T |-> TS, psize |-> 10, alloc |-> 10]
-NoClient == [st |-> "Idle", nonce |-> NoNonce, remote |-> NoNonce, at |-> 0, left |-> 0, deadline |-> 0, disc |-> "none", T |-> TC]
+\* the two ends advertise different limits (client: allocation 2000 bytes, receive rate 7; server: allocation 3000, receive rate 9),
+\* compatible with each other's max_packet_size (10), so that "each end holds what the other advertised" is not vacuous
+Cfg == [maxActive |-> MaxActive, maxTotal |-> MaxTotal, herr |-> Herr, T |-> TS, psize |-> 10, alloc |-> 3000, rate |-> 8, rrate |-> 9]
+CRate == 5          \* a client's max_send_rate
+NoClient == [st |-> "Idle", nonce |-> NoNonce, remote |-> NoNonce, at |-> 0, left |-> 0, deadline |-> 0, disc |-> "none", T |-> TC, srate |-> CRate, pAlloc |-> 0, pRate |-> 0]
 
 VARIABLES cl, sv, net, inC, inS, now, evC, evS, cAcked, heardC, heardS, fresh, faults, forgeries, ndata, bytesIn, bytesOut, verified, viol
 vars == <<cl, sv, net, inC, inS, now, evC, evS, cAcked, heardC, heardS, fresh, faults, forgeries, ndata, bytesIn, bytesOut, verified, viol>>
@@ -40,11 +43,11 @@ RECURSIVE AddAll(_, _)
 AddAll(b, S) == IF S = <<>> THEN b ELSE AddAll(b (+) SetToBag({Head(S)}), Tail(S))
 Room(n) == BagCardinality(net) + n <= NetCap
 
-SynOf(c) == [ty |-> "SYN", nonce |-> ClientNonce(c), version |-> 3, psize |-> 10, alloc |-> 10]
+SynOf(c) == [ty |-> "SYN", nonce |-> ClientNonce(c), version |-> 3, psize |-> 10, alloc |-> 2000, rate |-> 7]
 
 Connect(c) ==
     /\ cl[c].st = "Idle" /\ Room(1)
-    /\ cl' = [cl EXCEPT ![c] = ClientInit(ClientNonce(c), now, TC)]
+    /\ cl' = [cl EXCEPT ![c] = ClientInitL(ClientNonce(c), now, TC, CRate)]
     /\ net' = net (+) SetToBag({Pkt(c, "s", SynOf(c))})
     /\ UNCHANGED <<sv, inC, inS, now, evC, evS, cAcked, heardC, heardS, fresh, faults, forgeries, ndata, bytesIn, bytesOut, verified, viol>>
 
@@ -107,7 +110,8 @@ Dup(p) == /\ faults > 0 /\ BagIn(p, net) /\ Room(1) /\ net' = net (+) SetToBag({
 
 ForgedFrames == {Ack(GuessNonce), SynAck(GuessNonce, GuessNonce), Err(GuessNonce, "ServerFull"), Disc, DiscAck, [ty |-> "DATA"],
                  [ty |-> "SYN", nonce |-> GuessNonce, version |-> 2, psize |-> 10, alloc |-> 10],
-                 [ty |-> "SYN", nonce |-> GuessNonce, version |-> 3, psize |-> 99, alloc |-> 10]}
+                 [ty |-> "SYN", nonce |-> GuessNonce, version |-> 3, psize |-> 9999, alloc |-> 10],
+                 [ty |-> "SYN", nonce |-> GuessNonce, version |-> 3, psize |-> 10, alloc |-> 5000, rate |-> 3]}     \* compatible, other limits
 Forge(c, toServer, f) ==
     /\ forgeries > 0 /\ Room(1) /\ forgeries' = forgeries - 1
     /\ net' = net (+) SetToBag({IF toServer THEN Pkt(c, "s", f) ELSE Pkt("s", c, f)})
@@ -153,6 +157,10 @@ WF(q, st, isClient) ==
 EventStreamsWellFormed == \A c \in Clients : WF(evC[c], "idle", TRUE) /\ WF(evS[c], "idle", FALSE)
 
 AgreeWhenBothActive == \A c \in Clients : (cl[c].st = "Active" /\ sv[c].st = "Active") => (sv[c].local = cl[c].remote /\ sv[c].remote = cl[c].nonce)
+(* both ends established by the same handshake hold each other's advertised limits *)
+LimitsAgree == \A c \in Clients : (cl[c].st = "Active" /\ sv[c].st = "Active" /\ sv[c].local = cl[c].remote /\ sv[c].remote = cl[c].nonce) =>
+                  /\ SLimits(sv[c], Cfg) = [tx_alloc |-> FragCeil(2000), rate |-> 7]
+                  /\ CLimits(cl[c]) = [tx_alloc |-> FragCeil(3000), rate |-> 5]
 ServerConnectionsAreAcknowledged == \A c \in Clients : sv[c].st = "Active" => sv[c].local \in cAcked[c]
 ClientConnectionsEchoItsNonce == \A c \in Clients : cl[c].st = "Active" => cl[c].remote[1] = 2      \* a nonce the real server drew
 Limits == /\ Cardinality({c \in Clients : sv[c].st = "Active"}) <= MaxActive
